@@ -2,8 +2,8 @@
 from harness import check, replay
 
 LENSES = {
-    "quick": ["binder_names", "binder_integ"],
-    "thorough": ["binder_names", "binder_integ"],
+    "quick": ["binder_names", "binder_integ", "binder_indep"],
+    "thorough": ["binder_names", "binder_integ", "binder_indep"],
 }
 
 
